@@ -114,6 +114,16 @@ def run(chk):
     cases = [gen_case(chk.rng, i, chk.tier) for i in range(n)]
     if chk.tier == "thorough":
         cases.append(["case %d" % n, "initvbr 2 44100 %08x" % fbits(0.4), "encode 3000000", "clear"])   # F7 regression
+    # lowpass requests from well below to just under (and at) the Nyquist frequency, every layout family; rates whose table lowpass lands close
+    # under Nyquist: the residue range is rounded up to whole partitions and must still end inside the work vectors
+    for (chn, rate) in ((6, 44100), (6, 48000), (6, 40500), (2, 44100), (1, 44100), (3, 48000), (2, 22050), (6, 32000)):
+        nyq = rate / 2000.0
+        for eps in (0.0, 0.002, 0.006, 0.01, 0.013, 0.03, 0.1, 0.3):
+            for qq in ((0.5,) if chk.tier == "quick" and eps in (0.03, 0.1, 0.3) else (0.1, 0.5, 0.9)):
+                cases.append(["case %d" % len(cases), "vbr %d %d %08x" % (chn, rate, fbits(qq)), "ctl 0x21 %.6f" % (nyq * (1 - eps)), "setupinit", "encode 5000", "clear"])
+    for rate in (40201, 40300, 40500, 40743, 41000, 45000, 50000, 26000, 26001, 19000):
+        for chn in (6, 2):
+            cases.append(["case %d" % len(cases), "initvbr %d %d %08x" % (chn, rate, fbits(0.5)), "encode 5000", "clear"])
     # boundary block: every range check of the set-up API at limit-1 / limit / limit+1 with otherwise valid arguments
     for chn in (-1, 0, 1, 2, 254, 255, 256, 257):
         for (rate, qb, nom) in ((44100, fbits(0.4), 64000 * max(1, chn)), (8000, fbits(0.1), 16000 * max(1, chn))):
